@@ -178,6 +178,29 @@ def _min_len(c: Ctx, f: Func, e: ast.AST, at: ast.AST, depth: int = 0) -> int | 
                     return None
                 out = w if out is None else min(out, w)
         return out
+    if isinstance(e, ast.Subscript) and isinstance(e.slice, ast.Slice) and e.slice.upper is None and e.slice.step is None and e.slice.lower is not None:
+        # a suffix `S[lo:]` of a source string: at least B - lo characters for a bound B of S the facts relate lo to
+        l = lin(e.slice.lower)
+        if l is None or l[0] is None or not _is_source_string(c, f, ast.Subscript(value=e.value, slice=ast.Constant(value=0), ctx=ast.Load())):
+            return None
+        cfg_, res_ = bnd_facts(c, f)
+        bounds_ = Bounds(c, f)
+        out_: int | None = None
+        for nd in cfg_.owner(at):
+            z = res_.get(nd.id)
+            if z is None:
+                continue
+            z = z.copy()
+            z.close()
+            best = None
+            for (b, k) in z.upper_bounds(T(l[0])):
+                if bounds_.is_bound(b, e.value):
+                    w = -(k + l[1])
+                    best = w if best is None else max(best, w)
+            if best is None or best <= 0:
+                return None
+            out_ = best if out_ is None else min(out_, best)
+        return out_
     if isinstance(e, ast.Name):
         rd = Reaching(c.cfg(f))
         out = None
